@@ -65,6 +65,22 @@ def check(acc: Acc, name: str, xs: list[float], dyadic: bool) -> None:
         acc.violate("array-shape", {"hedge": name}, {"hedge": name, "x": xs[:4]}, arr.shape, np.shape(Y1),
                     f"{name}: array evaluation does not preserve the shape")
         return
+    sample = arr[:: max(1, len(xs) // 64)]
+    want_sample = np.array([float(h.hedge(float(v))) for v in sample])
+    kinds = {"list": lambda: h.hedge(list(sample)), "matrix": lambda: np.asarray(h.hedge(np.matrix(sample))).ravel(),
+             "masked": lambda: np.ma.getdata(h.hedge(np.ma.masked_array(sample, mask=[k % 2 == 0 for k in range(len(sample))])))}
+    for kind, fn in kinds.items():
+        got = np.asarray(fn(), dtype=float).ravel()
+        if got.shape != want_sample.shape or not np.allclose(got, want_sample, rtol=0, atol=1e-15):
+            acc.violate("array-kind", {"hedge": name, "operand": kind}, {"hedge": name, "x": float(sample[len(sample) // 2])},
+                        want_sample.tolist()[:4], got.tolist()[:4], f"{name}: a {kind} argument gives different values than the scalar calls")
+    for dtype in (np.float32, np.float16):
+        narrow = sample.astype(dtype)
+        got = np.asarray(h.hedge(narrow), dtype=float)
+        want_n = np.array([ref(float(v)) for v in narrow])  # the library converts to float64 first, then applies the formula
+        if not np.allclose(got, want_n, rtol=0, atol=1e-12):
+            acc.violate("array-kind", {"hedge": name, "operand": np.dtype(dtype).name}, {"hedge": name, "x": float(narrow[len(narrow) // 2])},
+                        want_n.tolist()[:4], got.tolist()[:4], f"{name}: a {np.dtype(dtype).name} array is not evaluated in double precision")
     very, somewhat = impl_of("very"), impl_of("somewhat")
     extremely, seldom, not_ = impl_of("extremely"), impl_of("seldom"), impl_of("not")
     prev = None
